@@ -272,6 +272,10 @@ def main(pid, build_groups, level_text, assumptions, outside_claim, technique):
     if '--tier' in args: tier = args[args.index('--tier') + 1]
     def go():
         groups = build_groups(tier)
+        only = os.environ.get('VERIF_ONLY')      # development aid: restrict the run to some harness functions (the evidence then describes only those)
+        if only:
+            for g in groups: g.functions = [f for f in g.functions if f in only.split(',')]
+            groups = [g for g in groups if g.functions]
         return run_check(pid, groups, tier, level_text, assumptions, outside_claim, technique)
     rc = S.in_big_thread(go)
     sys.stdout.flush()
